@@ -165,11 +165,12 @@ class DLISFile:
                 ]
             )
 
+        # number of records the generator yields: per logical file the file header, one record per set, the frame data
+        # and the no-format data (a size that is too small makes the progress bar of the writer raise a ValueError)
         n = 0
-        for eflr_set_type in self._eflr_sets:
-            n += len(list(self._eflr_sets.get_all_items_for_set_type(eflr_set_type)))
-
         for idx_lf, logical_file in enumerate(self.logical_files):
+            n += 1 + sum(len(set_dict) for set_type, set_dict in logical_file._eflr_sets.items()
+                         if set_type is not eflr_types.FileHeaderSet)
             for mfd in multi_frame_data_objects[idx_lf]:
                 n += len(mfd)
             n += len(logical_file._no_format_frame_data)
